@@ -7,7 +7,7 @@
    length p + 1, which always suffices (c05_fuel).  [wf_amf v]: v is representable -- number bit
    patterns < 2^64, strings and keys <= 65535 bytes, ECMA count < 2^32, strict length < 2^32.
    Trees are arbitrary otherwise: any nesting, any key order, repeated and empty keys. *)
-From Verif Require Import Lib.Base Lib.Sx Model.Amf0 Proofs.Amf0 Proofs.Amf0Fast.
+From Verif Require Import Lib.Base Lib.Sx Model.Amf0 Proofs.Amf0 Proofs.Amf0Fast Proofs.Amf0Hist.
 Open Scope N_scope.
 
 (* 1. Marshalling yields exactly Size() bytes (every tree, no side condition). *)
@@ -100,6 +100,56 @@ Proof. exact (build_props_nodup ops). Qed.
 Theorem c05_model_fast p v : decode_fast p = decode p /\ enc_fast v = enc v.
 Proof. split; [exact (decf_eq p)|exact (enc_fast_eq v)]. Qed.
 
+(* 9. Histories on ONE value.  The Go objects keep an element count beside the property list
+   (EcmaArray.count, StrictArray.count); [gval] is the object graph with those fields, [h_run g0 ops]
+   the graph after a sequence of API calls (new container, Set on the container at a path,
+   MarshalBinary of the object at a path, typed UnmarshalBinary into a fresh container, Get).
+   Invariant over ALL sequences (induction over the op list): the graph stays well formed ... *)
+Theorem c05_history_invariant ops g :
+  gwfc g = true -> forallb op_wf ops = true -> gwfc (h_run g ops) = true.
+Proof. intros Hg Hops. exact (h_run_wfc ops g Hg Hops). Qed.
+
+(* ... and therefore, after ANY sequence, for EVERY object of the graph (top level or nested,
+   whatever its stored count is at that moment; fewer than 2^32 properties per container):
+   MarshalBinary yields exactly enc of the current value -- Size() bytes, a strict array's wire
+   count = its number of properties --, the bytes followed by anything decode to the current
+   property lists in order with Size() = bytes consumed, marshalling leaves the value unchanged
+   and every strict count in sync, and marshalling again reproduces the bytes. *)
+Theorem c05_history ops path sub :
+  forallb op_wf ops = true ->
+  g_at path (h_run g0 ops) = Some sub -> gsmall sub = true ->
+  let b := fst (g_marshal sub) in
+  let sub' := snd (g_marshal sub) in
+  b = enc (g_view sub) /\
+  lenN b = size (g_view sub) /\
+  (forall rest, decode (b ++ rest) = Ok (g_view sub, size (g_view sub))) /\
+  (forall c ps, sub = GCont mStrictArray c ps ->
+     b = mStrictArray :: be4 (gplen ps) ++ enc_props (g_view_props ps)) /\
+  g_view sub' = g_view sub /\ gsynced sub' = true /\ fst (g_marshal sub') = b.
+Proof. exact (history_marshal ops path sub). Qed.
+
+(* Set on an object of the graph is objectBase.Set on the current value (7. applies), and a
+   freshly unmarshalled value enters the graph unchanged. *)
+Theorem c05_history_set k c ps key x :
+  g_view (GCont k c (gset_prop ps key x)) = mk_cont k c (set_prop (g_view_props ps) key (g_view x)).
+Proof. exact (history_set k c ps key x). Qed.
+
+Theorem c05_history_unmarshal k b v n : wf_bytes b -> um_kind k b = Ok (v, n) ->
+  g_view (g_of_amf true v) = v /\ gwfc (g_of_amf true v) = true.
+Proof. exact (history_unmarshal k b v n). Qed.
+
+(* non-vacuity: StrictArray: Set, Marshal, Set a new key (a nested StrictArray, then Set inside
+   it), Set replacing a key, Marshal again: counts 2 and 1 on the wire and in the objects *)
+Example c05_history_nonvacuous :
+  let ops := [HNew mStrictArray; HSet [] [97] (GLeaf ANull); HMarshal [];
+              HSet [] [98] (GCont mStrictArray 0 []); HSet [[98]] [120] (GLeaf (ABool true));
+              HSet [] [97] (GLeaf AUndef); HMarshal []] in
+  forallb op_wf ops = true /\
+  fst (g_marshal (h_run g0 ops)) =
+    [10; 0;0;0;2; 0;1;97; 6; 0;1;98; 10; 0;0;0;1; 0;1;120; 1;1] /\
+  h_run g0 ops = GCont mStrictArray 2 [([97], GLeaf AUndef); ([98], GCont mStrictArray 1 [([120], GLeaf (ABool true))])].
+Proof. exact history_example. Qed.
+
 (* non-vacuity: a representable tree with nesting, a repeated key, an empty key, a signalling NaN,
    -0, an ECMA array with a foreign count and a strict array with elements *)
 Example c05_nonvacuous :
@@ -123,3 +173,7 @@ Print Assumptions c05_dec_wf.
 Print Assumptions c05_set_keys.
 Print Assumptions c05_api_built_unique.
 Print Assumptions c05_model_fast.
+Print Assumptions c05_history_invariant.
+Print Assumptions c05_history.
+Print Assumptions c05_history_set.
+Print Assumptions c05_history_unmarshal.
